@@ -31,7 +31,14 @@ func main() {
 	repo := flag.String("repo", "/repo", "repository root")
 	rt := flag.String("rt", "", "directory with the verifsync runtime source")
 	out := flag.String("out", "", "output directory (generated files and overlay.json)")
+	recv := flag.String("recv", "band", "comma-separated package directories whose pointer-receiver methods get field-level probes")
 	flag.Parse()
+	recvPkgs := map[string]bool{}
+	for _, p := range strings.Split(*recv, ",") {
+		if p != "" {
+			recvPkgs[p] = true
+		}
+	}
 	if *rt == "" || *out == "" {
 		fmt.Fprintln(os.Stderr, "usage: overlaygen -rt dir -out dir pkgdir...")
 		os.Exit(2)
@@ -48,7 +55,7 @@ func main() {
 	report := map[string]interface{}{}
 	for _, rel := range flag.Args() {
 		dir := filepath.Join(*repo, rel)
-		instr, err := instrument(dir, filepath.Join(*out, strings.Replace(rel, "/", "_", -1)))
+		instr, err := instrument(dir, filepath.Join(*out, strings.Replace(rel, "/", "_", -1)), recvPkgs[rel])
 		if err != nil {
 			fmt.Fprintf(os.Stderr, "overlaygen: %s: %v\n", rel, err)
 			os.Exit(1)
@@ -56,7 +63,7 @@ func main() {
 		for src, gen := range instr.files {
 			replace[src] = gen
 		}
-		report[rel] = map[string]interface{}{"written_vars": instr.written, "sync_vars": instr.syncVars, "access_points": instr.points, "files_rewritten": len(instr.files)}
+		report[rel] = map[string]interface{}{"written_vars": instr.written, "sync_vars": instr.syncVars, "access_points": instr.points, "files_rewritten": len(instr.files), "written_receiver_fields": instr.fields, "field_access_points": instr.fieldPoints}
 	}
 	ov, _ := json.MarshalIndent(map[string]interface{}{"Replace": replace}, "", " ")
 	if err := ioutil.WriteFile(filepath.Join(*out, "overlay.json"), ov, 0o644); err != nil {
@@ -69,13 +76,15 @@ func main() {
 }
 
 type result struct {
-	files    map[string]string
-	written  []string
-	syncVars []string
-	points   int
+	files       map[string]string
+	written     []string
+	syncVars    []string
+	points      int
+	fields      []string
+	fieldPoints int
 }
 
-func instrument(dir, outDir string) (*result, error) {
+func instrument(dir, outDir string, recvFields bool) (*result, error) {
 	fset := token.NewFileSet()
 	entries, err := ioutil.ReadDir(dir)
 	if err != nil {
@@ -156,7 +165,34 @@ func instrument(dir, outDir string) (*result, error) {
 			})
 		}
 	}
+	// receiver fields written by some pointer-receiver method ("T.f")
+	writtenFields := map[string]bool{}
+	if recvFields {
+		for _, f := range files {
+			for _, d := range f.file.Decls {
+				fd, ok := d.(*ast.FuncDecl)
+				if !ok || fd.Body == nil {
+					continue
+				}
+				rn, _ := ptrReceiver(fd)
+				if rn == nil {
+					continue
+				}
+				fa := fieldAliasesOf(fd.Body, rn)
+				ast.Inspect(fd.Body, func(n ast.Node) bool {
+					for _, fld := range writtenFieldsOf(n, rn, fa) {
+						writtenFields[fld] = true
+					}
+					return true
+				})
+			}
+		}
+	}
 	res := &result{files: map[string]string{}}
+	for n := range writtenFields {
+		res.fields = append(res.fields, n)
+	}
+	sort.Strings(res.fields)
 	for n := range written {
 		res.written = append(res.written, n)
 	}
@@ -200,6 +236,13 @@ func instrument(dir, outDir string) (*result, error) {
 			if n > 0 {
 				res.points += n
 				needRT, changed = true, true
+			}
+			if rn, tn := ptrReceiver(fd); recvFields && rn != nil {
+				k := instrumentFields(fd.Body, rn, tn, writtenFields, fieldAliasesOf(fd.Body, rn))
+				if k > 0 {
+					res.fieldPoints += k
+					needRT, changed = true, true
+				}
 			}
 		}
 		if needRT {
@@ -525,6 +568,280 @@ func instrumentList(list []ast.Stmt, written map[string]bool, isGlobal func(*ast
 			}
 		case *ast.LabeledStmt:
 			// the labelled statement itself was not inspected above; rare in this code base
+		}
+	}
+	return out, count
+}
+
+// ---- receiver fields (packages given with -recv): in methods with a pointer
+// receiver r of type T, a statement that mentions r.f, for a field f that some
+// method of T writes, is preceded by verifsyncrt.AccessObj(r, "T.f", isWrite).
+// The probe name carries the object's address, so separately created objects
+// never conflict; two threads on one shared object conflict exactly when one of
+// them writes the field. A method call on a field counts as a read of the field.
+
+func ptrReceiver(fd *ast.FuncDecl) (*ast.Ident, string) {
+	if fd.Recv == nil || len(fd.Recv.List) != 1 || len(fd.Recv.List[0].Names) != 1 {
+		return nil, ""
+	}
+	st, ok := fd.Recv.List[0].Type.(*ast.StarExpr)
+	if !ok {
+		return nil, ""
+	}
+	tn, ok := st.X.(*ast.Ident)
+	if !ok || fd.Recv.List[0].Names[0].Name == "_" {
+		return nil, ""
+	}
+	return fd.Recv.List[0].Names[0], tn.Name
+}
+
+func isRecv(id, rn *ast.Ident) bool {
+	return id.Name == rn.Name && (id.Obj == nil || id.Obj == rn.Obj)
+}
+
+// fieldOf returns the field f when e is rooted at r.f (r.f, r.f[i], r.f[i].g, r.f[a:b], (*r).f ...).
+func fieldOf(e ast.Expr, rn *ast.Ident) string {
+	for {
+		switch v := e.(type) {
+		case *ast.SelectorExpr:
+			x := v.X
+			for {
+				if p, ok := x.(*ast.ParenExpr); ok {
+					x = p.X
+					continue
+				}
+				if st, ok := x.(*ast.StarExpr); ok {
+					x = st.X
+					continue
+				}
+				break
+			}
+			if id, ok := x.(*ast.Ident); ok && isRecv(id, rn) {
+				return v.Sel.Name
+			}
+			e = v.X
+		case *ast.IndexExpr:
+			e = v.X
+		case *ast.StarExpr:
+			e = v.X
+		case *ast.ParenExpr:
+			e = v.X
+		case *ast.SliceExpr:
+			e = v.X
+		default:
+			return ""
+		}
+	}
+}
+
+// fieldAliasesOf: locals bound to (a slice of / the address of) a receiver field.
+func fieldAliasesOf(body *ast.BlockStmt, rn *ast.Ident) map[string]string {
+	al := map[string]string{}
+	ast.Inspect(body, func(n ast.Node) bool {
+		as, ok := n.(*ast.AssignStmt)
+		if !ok || len(as.Lhs) != len(as.Rhs) {
+			return true
+		}
+		for i, r := range as.Rhs {
+			l, ok := as.Lhs[i].(*ast.Ident)
+			if !ok || l.Name == "_" {
+				continue
+			}
+			e := r
+			if u, ok := e.(*ast.UnaryExpr); ok && u.Op == token.AND {
+				e = u.X
+			}
+			// only whole fields, slices of them and element addresses alias the field's memory
+			switch v := e.(type) {
+			case *ast.SelectorExpr, *ast.SliceExpr:
+				if f := fieldOf(v.(ast.Expr), rn); f != "" {
+					al[l.Name] = f
+				}
+			case *ast.IndexExpr:
+				if _, isAddr := r.(*ast.UnaryExpr); isAddr {
+					if f := fieldOf(v, rn); f != "" {
+						al[l.Name] = f
+					}
+				}
+			}
+		}
+		return true
+	})
+	return al
+}
+
+func writtenFieldsOf(n ast.Node, rn *ast.Ident, al map[string]string) []string {
+	var out []string
+	add := func(e ast.Expr) {
+		if f := fieldOf(e, rn); f != "" {
+			out = append(out, f)
+			return
+		}
+		if id := root(e); id != nil && !isRecv(id, rn) {
+			if f, ok := al[id.Name]; ok {
+				// a store through the alias itself (x = ...) rebinds the local; only x[i] = / x.f = / *x = write the field
+				if _, plain := e.(*ast.Ident); !plain {
+					out = append(out, f)
+				}
+			}
+		}
+	}
+	switch v := n.(type) {
+	case *ast.AssignStmt:
+		if v.Tok != token.DEFINE {
+			for _, l := range v.Lhs {
+				add(l)
+			}
+		}
+	case *ast.IncDecStmt:
+		add(v.X)
+	case *ast.RangeStmt:
+		if v.Tok == token.ASSIGN {
+			if v.Key != nil {
+				add(v.Key)
+			}
+			if v.Value != nil {
+				add(v.Value)
+			}
+		}
+	case *ast.CallExpr:
+		if fn, ok := v.Fun.(*ast.Ident); ok && (fn.Name == "delete" || fn.Name == "copy") && len(v.Args) > 0 {
+			add(v.Args[0])
+		}
+	}
+	return out
+}
+
+// fieldMentions: fields (written somewhere) a statement mentions -> whether it writes them.
+func fieldMentions(stmt ast.Stmt, rn *ast.Ident, tn string, writtenFields map[string]bool, al map[string]string) map[string]bool {
+	names := map[string]bool{}
+	visit := func(n ast.Node) bool {
+		switch v := n.(type) {
+		case *ast.BlockStmt, *ast.FuncLit:
+			return false
+		case *ast.SelectorExpr:
+			if f := fieldOf(v, rn); f != "" && writtenFields[f] {
+				if _, ok := names[f]; !ok {
+					names[f] = false
+				}
+			}
+		case *ast.Ident:
+			if f, ok := al[v.Name]; ok && writtenFields[f] {
+				if _, ok := names[f]; !ok {
+					names[f] = false
+				}
+			}
+		}
+		for _, f := range writtenFieldsOf(n, rn, al) {
+			if writtenFields[f] {
+				names[f] = true
+			}
+		}
+		return true
+	}
+	hdr := func(ns ...ast.Node) {
+		for _, n := range ns {
+			if n != nil && !isNilNode(n) {
+				ast.Inspect(n, visit)
+			}
+		}
+	}
+	switch s := stmt.(type) {
+	case *ast.IfStmt:
+		hdr(s.Init, s.Cond)
+	case *ast.ForStmt:
+		hdr(s.Init, s.Cond, s.Post)
+	case *ast.RangeStmt:
+		hdr(s.X)
+		for _, f := range writtenFieldsOf(s, rn, al) {
+			if writtenFields[f] {
+				names[f] = true
+			}
+		}
+	case *ast.SwitchStmt:
+		hdr(s.Init, s.Tag)
+	case *ast.TypeSwitchStmt:
+		hdr(s.Init, s.Assign)
+	case *ast.BlockStmt, *ast.SelectStmt, *ast.LabeledStmt:
+	default:
+		ast.Inspect(stmt, visit)
+	}
+	return names
+}
+
+func accessObjCall(rn *ast.Ident, field, name string, write bool) ast.Stmt {
+	w := "false"
+	if write {
+		w = "true"
+	}
+	return &ast.ExprStmt{X: &ast.CallExpr{
+		Fun: &ast.SelectorExpr{X: ast.NewIdent("verifsyncrt"), Sel: ast.NewIdent("AccessObj")},
+		// identity = address of the field itself (the same through any embedding path)
+		Args: []ast.Expr{&ast.UnaryExpr{Op: token.AND, X: &ast.SelectorExpr{X: ast.NewIdent(rn.Name), Sel: ast.NewIdent(field)}}, &ast.BasicLit{Kind: token.STRING, Value: strconv.Quote(name)}, ast.NewIdent(w)},
+	}}
+}
+
+func instrumentFields(b *ast.BlockStmt, rn *ast.Ident, tn string, writtenFields map[string]bool, al map[string]string) int {
+	if b == nil {
+		return 0
+	}
+	var n int
+	b.List, n = instrumentFieldList(b.List, rn, tn, writtenFields, al)
+	return n
+}
+
+func instrumentFieldList(list []ast.Stmt, rn *ast.Ident, tn string, writtenFields map[string]bool, al map[string]string) ([]ast.Stmt, int) {
+	var out []ast.Stmt
+	count := 0
+	rec := func(b *ast.BlockStmt) { count += instrumentFields(b, rn, tn, writtenFields, al) }
+	for _, s := range list {
+		// probes this tool inserted itself are not statements of the program
+		m := fieldMentions(s, rn, tn, writtenFields, al)
+		var names []string
+		for k := range m {
+			names = append(names, k)
+		}
+		sort.Strings(names)
+		for _, k := range names {
+			out = append(out, accessObjCall(rn, k, tn+"."+k, m[k]))
+			count++
+		}
+		out = append(out, s)
+		switch v := s.(type) {
+		case *ast.BlockStmt:
+			rec(v)
+		case *ast.IfStmt:
+			rec(v.Body)
+			for e := v.Else; e != nil; {
+				switch ev := e.(type) {
+				case *ast.BlockStmt:
+					rec(ev)
+					e = nil
+				case *ast.IfStmt:
+					rec(ev.Body)
+					e = ev.Else
+				default:
+					e = nil
+				}
+			}
+		case *ast.ForStmt:
+			rec(v.Body)
+		case *ast.RangeStmt:
+			rec(v.Body)
+		case *ast.SwitchStmt:
+			for _, cc := range v.Body.List {
+				c := cc.(*ast.CaseClause)
+				var k int
+				c.Body, k = instrumentFieldList(c.Body, rn, tn, writtenFields, al)
+				count += k
+			}
+		case *ast.TypeSwitchStmt:
+			for _, cc := range v.Body.List {
+				c := cc.(*ast.CaseClause)
+				var k int
+				c.Body, k = instrumentFieldList(c.Body, rn, tn, writtenFields, al)
+				count += k
+			}
 		}
 	}
 	return out, count
